@@ -20,12 +20,47 @@ pub enum ErrKind {
     Unsupported,
     NotConnected,
     OutOfMemory,
+    // (appended later; the discriminants above are part of the event-log encoding)
+    ConnectionAborted,
+    // Errors as the operating system reports them: built with `from_raw_os_error`, so that
+    // `raw_os_error()` is set and `kind()` is whatever std decodes (EIO and EBADF decode to the
+    // unmatchable `Uncategorized`, not to `Other`).
+    OsEio,
+    OsEstale,
+    OsEisdir,
+    OsEbadf,
+    OsEbusy,
+    OsEfbig,
+    OsEnomem,
 }
 
 impl ErrKind {
-    pub fn to_io(self) -> std::io::ErrorKind {
-        use std::io::ErrorKind as K;
+    pub const COUNT: usize = 21;
+    pub const NAMES: [&'static str; ErrKind::COUNT] = [
+        "Other(EIO)", "UnexpectedEof", "TimedOut", "WouldBlock", "PermissionDenied", "NotFound",
+        "BrokenPipe", "ConnectionReset", "InvalidInput", "InvalidData", "Unsupported", "NotConnected",
+        "OutOfMemory", "ConnectionAborted", "os:EIO(5)", "os:ESTALE(116)", "os:EISDIR(21)",
+        "os:EBADF(9)", "os:EBUSY(16)", "os:EFBIG(27)", "os:ENOMEM(12)",
+    ];
+    fn raw_os(self) -> Option<i32> {
         match self {
+            ErrKind::OsEio => Some(5),
+            ErrKind::OsEstale => Some(116),
+            ErrKind::OsEisdir => Some(21),
+            ErrKind::OsEbadf => Some(9),
+            ErrKind::OsEbusy => Some(16),
+            ErrKind::OsEfbig => Some(27),
+            ErrKind::OsEnomem => Some(12),
+            _ => None,
+        }
+    }
+    /// The error a simulated `open`/`read` returns.
+    pub fn to_error(self) -> std::io::Error {
+        use std::io::ErrorKind as K;
+        if let Some(code) = self.raw_os() {
+            return std::io::Error::from_raw_os_error(code);
+        }
+        let kind = match self {
             ErrKind::Other => K::Other,
             ErrKind::UnexpectedEof => K::UnexpectedEof,
             ErrKind::TimedOut => K::TimedOut,
@@ -39,9 +74,12 @@ impl ErrKind {
             ErrKind::Unsupported => K::Unsupported,
             ErrKind::NotConnected => K::NotConnected,
             ErrKind::OutOfMemory => K::OutOfMemory,
-        }
+            ErrKind::ConnectionAborted => K::ConnectionAborted,
+            _ => unreachable!(),
+        };
+        kind.into()
     }
-    pub const READ_KINDS: [ErrKind; 12] = [
+    pub const READ_KINDS: [ErrKind; 20] = [
         ErrKind::Other,
         ErrKind::UnexpectedEof,
         ErrKind::TimedOut,
@@ -54,12 +92,22 @@ impl ErrKind {
         ErrKind::Unsupported,
         ErrKind::NotConnected,
         ErrKind::OutOfMemory,
+        ErrKind::ConnectionAborted,
+        ErrKind::OsEio,
+        ErrKind::OsEstale,
+        ErrKind::OsEisdir,
+        ErrKind::OsEbadf,
+        ErrKind::OsEbusy,
+        ErrKind::OsEfbig,
+        ErrKind::OsEnomem,
     ];
-    pub const OPEN_KINDS: [ErrKind; 4] = [
+    pub const OPEN_KINDS: [ErrKind; 6] = [
         ErrKind::NotFound,
         ErrKind::PermissionDenied,
         ErrKind::Other,
         ErrKind::InvalidInput,
+        ErrKind::OsEstale,
+        ErrKind::OsEio,
     ];
 }
 
